@@ -45,7 +45,7 @@ def gen_case(rng):
         adopts += ["--revcomp"]
     if rng.random() < 0.25:
         adopts += ["--no-indels"]
-    action = rng.choice(["trim", "trim", "trim", "mask", "none", "retain"])
+    action = rng.choice(["trim", "trim", "trim", "mask", "none", "retain", "lowercase"])
     if action == "retain" and times > 1:
         action = "mask"
     if action != "trim":
@@ -70,7 +70,7 @@ def gen_case(rng):
     if rng.random() < 0.2:
         post += ["-l", "20"]
     cores = rng.choice([1, 1, 1, 2])
-    feats = dict(maxlen=45, nruns=True, revcomp_some=revcomp, qual_profile=rng.choice(["decay", "mixed", "high", "decay"]), header="casava" if "--discard-casava" in filt else rng.choice(["plain", "comment", "casava"]))
+    feats = dict(maxlen=45, nruns=True, revcomp_some=revcomp, lower=rng.random() < 0.25, qual_profile=rng.choice(["decay", "mixed", "high", "decay"]), header="casava" if "--discard-casava" in filt else rng.choice(["plain", "comment", "casava"]))
     recs, _ = G.gen_reads(rng, rng.randint(15, 45), False, ads, **feats)
     return dict(ads=ads, fmt=fmt, pre=pre, adopts=adopts, filt=filt, post=post, times=times, revcomp=revcomp, cores=cores, recs=recs)
 
